@@ -3,6 +3,14 @@
 import json, sys
 BASE = "cd /repo && cargo nextest run --workspace --no-fail-fast --test-threads 8 --offline || cargo test --workspace --no-fail-fast --offline"
 CHECKS = {
+ "C03": dict(cat="model_checking", eng="mdv-env", ref="DESIGN.md §3 C03",
+   tech="deviation-bounded exhaustive exploration of fault points x signal-event placements at intercepted libc call boundaries around real dumps; oracle on /proc state, heartbeats and per-thread signal logs",
+   text="Every destination call failing or panicking, a hard error mid-dump, every injectable libc answer of the recorded baseline trace (attach/wait/regs/vmread/open/opendir/kill/uname) and the StopProcess fail point, each run to completion; plus every placement of one signal event (SIGUSR1/SIGRTMIN to each thread, process-directed SIGUSR2) before ~18 keyed syscalls and after return under four fault contexts (thorough: all pairs of events with different signal numbers). After each run: no thread traced or stopped within 2 s, every thread makes progress, every sent signal handled exactly once; every successful attach has a detach.",
+   note="Placement is at the dumper's syscall boundaries (callbacks run inside the interposed libc wrapper). The kernel's choice among runnable target threads is not controlled; DETACH/CONT/SIGCONT are never faked. A hang is reported as a violation by the watchdog."),
+ "C11": dict(cat="model_checking", eng="mdv-env", ref="DESIGN.md §3 C11 / Appendix B",
+   tech="exhaustive fail-point subsets + single/pairwise world-consistent fault injection at the libc boundary, differential against a baseline dump",
+   text="All 32 subsets of the five fail points x N in {1,3} x crash context on/off, and 37 natural failures of best-effort steps (kill EPERM, stop never observed, auxv unreadable/truncated, each thread's comm unreadable, each attach failing, cpuinfo/status/release/cmdline/environ/maps/limits unreadable, fd listing denied, program headers unreadable, unknown principal mapping, ...) alone and (thorough) in all non-masking pairs: dump must return Ok, the soft-error stream must be a JSON list naming each injected failure, [] without injection, and all streams not fed by the failed step must equal the baseline dump of the same puppet.",
+   note="Pairs of injections into the same step mask each other and are excluded (conflict relation in c11.rs)."),
  "C04": dict(cat="model_checking", eng="mdv-lat", ref="DESIGN.md §3 C04",
    tech="exhaustive single-deviation enumeration of register files on live puppet threads + thread-count/kind shapes + busy-counter snapshot coherence, on real dumps",
    text="One puppet thread per register file: the all-distinct base and every single deviation over 34 register dimensions (16 GPR incl. rsp, 16 XMM, mxcsr, x87 cw) x boundary values for spin threads (all 16 GPRs loaded), the ABI-preserved registers for threads blocked in futex; thread counts up to 64 in three kind mixes with 0..2 null-stack-pointer threads (must be skipped and reported); busy counter threads under the StopProcess fail point whose register, stack slot and app-memory word must agree within one step.",
